@@ -88,6 +88,9 @@ private def seedVal (ty nm : String) : Option Int :=
   | "lowest" => some (if isF then -(2 * big) else -(2 * big) - 2)
   | "min" => some (if isF then 1 else -(2 * big) - 2)
   | "zero" => some 0
+  -- `has_infinity ? infinity() : max()` and `has_infinity ? -infinity() : lowest()`
+  | "infmax" => some (if isF then 2 * (2 ^ 2000 : Int) else 2 * big)
+  | "neginflowest" => some (if isF then -(2 * (2 ^ 2000 : Int)) else -(2 * big) - 2)
   | _ => none
 
 def runMinmax (kv : List (String × String)) : String := Id.run do
